@@ -31,7 +31,7 @@ func depIdent(d DepSpec) Ident {
 		t = TI0
 	}
 	switch d.Form {
-	case FormNamed:
+	case FormNamed, FormNamedOptional:
 		return Ident{Type: t, Key: "k1"}
 	case FormGroup:
 		return Ident{Type: t, Group: "g1"}
@@ -66,7 +66,7 @@ func (w *World) DepsOf(r int) []DepEdge {
 		if d.Target < -1 {
 			continue // built-in injectable: always available, not a registration
 		}
-		e := DepEdge{Spec: d, Id: depIdent(d), Group: d.Form == FormGroup, Optional: d.Form == FormOptional}
+		e := DepEdge{Spec: d, Id: depIdent(d), Group: d.Form == FormGroup, Optional: d.Form == FormOptional || d.Form == FormNamedOptional}
 		e.Targets = w.Providers(e.Id)
 		if !e.Group && len(e.Targets) == 0 && !e.Optional {
 			e.Missing = true
